@@ -40,7 +40,7 @@ class Gen:
         if k < 0.975 and self.rich and not in_a:
             return r.choice(['<script>var a = "<b>x</b>";</script>', '<style>p > a { color: red }</style>',
                              '<svg width="4"><circle r="2"></circle></svg>', '<select><option>one</option><option>two</option></select>',
-                             '<input type="text" value="v">', '<textarea>t &lt; u</textarea>', '<button>go</button>',
+                             '<input type="text" value="v">', '<textarea>t &lt; u</textarea>', '<button>go</button>', '<button type="submit" class="btn">send the form now</button>',
                              '<iframe src="/frame"></iframe>', '<iframe></iframe>',
                              '<video src="v.webm">plain fallback</video>', '<audio src="a.ogg"><b>no</b> audio</audio>',
                              '<object data="o.swf">fallback <i>words</i></object>'])
